@@ -31,7 +31,7 @@ var suites = map[string][][]string{
 	},
 	"book": {
 		{"LimitOrdersOfPool", "SwapPools"}, {"LimitOrders", "BestTrade"}, {"LimitOrder", "LimitOrdersOfPoolRev"}, {"EstimateCoinSell", "Address"},
-		{"SwapPool", "EstimateCoinBuy"}, {"BestTradeOut", "EstimateCoinSellAll"},
+		{"SwapPool", "EstimateCoinBuy"}, {"BestTradeOut", "EstimateCoinSellAll"}, {"EstimateSellFeeTok", "EstimateBuyFeeTok"},
 	},
 	"stake": {
 		{"Candidates", "Address"}, {"Candidate", "Frozen"}, {"Addresses", "WaitList"}, {"MissedBlocks", "FrozenCoin"}, {"CoinInfo", "EstimateCoinSell"},
@@ -154,6 +154,11 @@ func TierB(tier string) []Spec {
 		Threads: [][]string{{"Candidate"}}, Span: "DeliverTx", Bound: 2})
 	add(Spec{Name: "B2/pay DeliverTx(send, fee through pool) | BestTrade", World: "pay", Block: PBlock{Txs: []string{"A->B 10 BIP gas TOKA"}},
 		Threads: [][]string{{"BestTrade"}}, Span: "DeliverTx", Bound: 2})
+	// an estimate paying its commission through the order book of the pool whose orders the block made dirty
+	add(Spec{Name: "B2/book Commit(second buy-order) | EstimateSellFeeTok", World: "book", Prefix: []PBlock{{Txs: []string{"m1 buy-order 1000/1000 (price 1)"}}},
+		Block: PBlock{Txs: []string{"m3 buy-order 500/500 (price 1, equal)"}}, Threads: [][]string{{"EstimateSellFeeTok"}}, Span: "Commit", Bound: 2})
+	add(Spec{Name: "B1/book taker sells TOK into the buy-order | EstimateSellFeeTok,EstimateBuyFeeTok", World: "book", Prefix: []PBlock{{Txs: []string{"m1 buy-order 1000/1000 (price 1)"}}},
+		Block: PBlock{Txs: []string{"m3 buy-order 500/500 (price 1, equal)"}}, Threads: [][]string{{"EstimateSellFeeTok", "EstimateBuyFeeTok"}}, Bound: 1})
 	if tier != "quick" {
 		add(Spec{Name: "B2/pay DeliverTx(send, fee through pool) | EstimateCoinSell", World: "pay", Block: PBlock{Txs: []string{"A->B 10 BIP gas TOKA"}},
 			Threads: [][]string{{"EstimateCoinSell"}}, Span: "DeliverTx", Bound: 2})
